@@ -43,7 +43,7 @@ type idtPoint struct {
 	sig    string // rs-k0 | rs-other | ps-k0 | es-e0 | none | hs-pub | nokid | unknownkid | emptykid
 	keys   string // alg | noalg-mutated | noalg-raw | useenc | usesig
 	iss    string // ok | wrong | missing
-	aud    string // str | one | trusted | untrusted | other | missing | empty
+	aud    string // str | one | trusted | untrusted | other | missing | empty | emptystr | resource | twice | mixed | issuer | trustedfirst | trustedonly
 	exp    string // far | m4 | m5 | m6 | missing | epoch
 	iat    string // past | p4 | p5 | p6 | missing | epoch
 	nbf    string // missing | p5 | p6 | past
@@ -55,14 +55,19 @@ type idtPoint struct {
 	acrCfg string // "" (not configured) | substantial | high | Level3 | Level4 | other
 	shape  string // ok | noidtoken | notstring | malformed
 	jwks   string // fresh | stale (the cached key set predates a key rotation: it lacks k0; a forced refresh returns the full set)
+	res    string // "" | set: openid.resource-indicator of the deployment (unset = the empty string, the default / idtResource)
 	nowOff time.Duration
 }
 
 var idtDims = map[string][]string{
-	"sig":    {"rs-k0", "rs-other", "ps-k0", "es-e0", "none", "hs-pub", "nokid", "unknownkid", "emptykid"},
-	"keys":   {"alg", "noalg-mutated", "noalg-raw", "useenc", "usesig"},
-	"iss":    {"ok", "wrong", "missing"},
-	"aud":    {"str", "one", "trusted", "untrusted", "other", "missing", "empty"},
+	"sig":  {"rs-k0", "rs-other", "ps-k0", "es-e0", "none", "hs-pub", "nokid", "unknownkid", "emptykid"},
+	"keys": {"alg", "noalg-mutated", "noalg-raw", "useenc", "usesig"},
+	"iss":  {"ok", "wrong", "missing"},
+	// additional audiences: a configured trusted one, a named untrusted one, the EMPTY STRING (the value of every unset string
+	// option of the deployment), the deployment's resource indicator (RFC 8707 restricts the access token, not the ID token), the
+	// client id twice, a trusted one next to an untrusted one, the provider's issuer, the trusted one first / without the client id
+	"aud": {"str", "one", "trusted", "untrusted", "other", "missing", "empty", "emptystr", "resource", "twice", "mixed", "issuer",
+		"trustedfirst", "trustedonly"},
 	"exp":    {"far", "m4", "m5", "m6", "missing", "epoch"},
 	"iat":    {"past", "p4", "p5", "p6", "missing", "epoch"},
 	"nbf":    {"missing", "p5", "p6", "past"},
@@ -74,10 +79,14 @@ var idtDims = map[string][]string{
 	"acrcfg": {"", "substantial", "high", "Level3", "Level4", "other"},
 	"shape":  {"ok", "noidtoken", "notstring", "malformed"},
 	"jwks":   {"fresh", "stale"},
+	"res":    {"", "set"},
 	"now":    {"0", "300ms", "700ms"},
 }
 
-var idtOrder = []string{"sig", "keys", "iss", "aud", "exp", "iat", "nbf", "nonce", "sub", "sid", "sidreq", "acr", "acrcfg", "shape", "jwks", "now"}
+var idtOrder = []string{"sig", "keys", "iss", "aud", "exp", "iat", "nbf", "nonce", "sub", "sid", "sidreq", "acr", "acrcfg", "shape", "jwks", "res", "now"}
+
+// the deployment's openid.resource-indicator where that dimension says "set"
+const idtResource = "urn:resource:x"
 
 func (p *idtPoint) set(dim, v string) {
 	switch dim {
@@ -111,6 +120,8 @@ func (p *idtPoint) set(dim, v string) {
 		p.shape = v
 	case "jwks":
 		p.jwks = v
+	case "res":
+		p.res = v
 	case "now":
 		switch v {
 		case "300ms":
@@ -214,6 +225,27 @@ func idtMint(p idtPoint, now time.Time, idtNonce string) (raw string, model stri
 	case "other":
 		claims["aud"] = []string{"someone-else"}
 		mAud = audList("someone-else")
+	case "emptystr":
+		claims["aud"] = []string{idtClientID, ""}
+		mAud = audList(idtClientID, "")
+	case "resource":
+		claims["aud"] = []string{idtClientID, idtResource}
+		mAud = audList(idtClientID, idtResource)
+	case "twice":
+		claims["aud"] = []string{idtClientID, idtClientID}
+		mAud = audList(idtClientID, idtClientID)
+	case "mixed":
+		claims["aud"] = []string{idtClientID, "trusted-aud", "untrusted-aud"}
+		mAud = audList(idtClientID, "trusted-aud", "untrusted-aud")
+	case "issuer":
+		claims["aud"] = []string{idtClientID, idpIssuer}
+		mAud = audList(idtClientID, idpIssuer)
+	case "trustedfirst":
+		claims["aud"] = []string{"trusted-aud", idtClientID}
+		mAud = audList("trusted-aud", idtClientID)
+	case "trustedonly":
+		claims["aud"] = []string{"trusted-aud"}
+		mAud = audList("trusted-aud")
 	case "empty":
 		claims["aud"] = []string{}
 		mAud = "-"
@@ -404,6 +436,19 @@ func runIDToken(args []string) error {
 	defer wobs.Flush()
 
 	// points: baseline, every single deviation, every pair of deviations (quick); triples of a subset (thorough)
+	further := func(dim, v string) bool {
+		if dim == "res" {
+			return v == "set"
+		}
+		if dim == "aud" {
+			for _, x := range idtDims["aud"][7:] {
+				if x == v {
+					return true
+				}
+			}
+		}
+		return false
+	}
 	var points []idtPoint
 	base := idtBaseline()
 	points = append(points, base)
@@ -418,11 +463,22 @@ func runIDToken(args []string) error {
 					p2.set(d2, v2)
 					points = append(points, p2)
 					if *tier == "thorough" {
-						for _, d3 := range []string{"sig", "aud", "jwks"} { // (every point is a full login + callback through the real handlers)
+						// triples: a third deviation in six of the dimensions; pairs that involve one of the further audience shapes or the
+						// resource indicator get their third deviation in the configuration dimensions (the lattice stays within ~20 % of its
+						// former size), and the audience as third deviation ranges over the first nine shapes
+						d3s := []string{"sig", "keys", "aud", "exp", "acrcfg", "sidreq", "jwks"}
+						if further(d1, v1) || further(d2, v2) {
+							d3s = []string{"aud", "acrcfg", "sidreq", "jwks", "res"}
+						}
+						for _, d3 := range d3s {
 							if d3 == d1 || d3 == d2 {
 								continue
 							}
-							for _, v3 := range idtDims[d3] {
+							vals3 := idtDims[d3]
+							if d3 == "aud" {
+								vals3 = vals3[:9]
+							}
+							for _, v3 := range vals3 {
 								p3 := p2
 								p3.set(d3, v3)
 								points = append(points, p3)
@@ -433,15 +489,17 @@ func runIDToken(args []string) error {
 			}
 		}
 	}
-	// one real stack per deployment configuration (configured acr x sid requirement); the points of a group run through it
+	// one real stack per deployment configuration (configured acr x sid requirement x resource indicator); the points of a group run
+	// through it
 	type gkey struct {
 		acr    string
 		sidReq bool
+		res    string
 	}
 	groups := map[gkey][]idtPoint{}
 	var order []gkey
 	for _, p := range points {
-		k := gkey{p.acrCfg, p.sidReq}
+		k := gkey{p.acrCfg, p.sidReq, p.res}
 		if _, ok := groups[k]; !ok {
 			order = append(order, k)
 		}
@@ -451,7 +509,11 @@ func runIDToken(args []string) error {
 	var rerr error
 	for _, gk := range order {
 		synctest.Run(func() {
-			s, err := newStack(stackOpts{maxLifetime: 10 * time.Hour, acr: acrString(gk.acr), sidOptional: !gk.sidReq, audiences: []string{"trusted-aud"}, useSecret: true, updAtomic: true})
+			o := stackOpts{maxLifetime: 10 * time.Hour, acr: acrString(gk.acr), sidOptional: !gk.sidReq, audiences: []string{"trusted-aud"}, useSecret: true, updAtomic: true}
+			if gk.res == "set" {
+				o.resource = idtResource
+			}
+			s, err := newStack(o)
 			if err != nil {
 				rerr = err
 				return
@@ -519,7 +581,11 @@ func runIDToken(args []string) error {
 				fmt.Fprintln(wimpl, bi(accepted))
 				errs := ""
 				if !accepted {
-					_, _, msgs := s.logScan()
+					// (the messages logged for this point only - the hook is reset after every point; not logScan, whose secret table
+					// grows with every cookie the stack has ever set)
+					s.logs.mu.Lock()
+					msgs := append([]string(nil), s.logs.msgs...)
+					s.logs.mu.Unlock()
 					for i := len(msgs) - 1; i >= 0 && i >= len(msgs)-6; i-- {
 						if strings.Contains(msgs[i], "callback") || strings.Contains(msgs[i], "token") {
 							errs = msgs[i]
@@ -530,7 +596,7 @@ func runIDToken(args []string) error {
 				ob, _ := json.Marshal(map[string]any{"point": fmt.Sprintf("%+v", p), "accepted": accepted, "error": errs, "status": rec2.Code,
 					"session_cookie": hasCookie && sc != "", "session_usable": usable, "store_keys_before": keysBefore, "store_keys_after": keysAfter,
 					"sig": p.sig, "keys": p.keys, "iss": p.iss, "aud": p.aud, "exp": p.exp, "iat": p.iat, "nbf": p.nbf, "nonce": p.nonce, "sub": p.sub,
-					"sid": p.sid, "sidreq": p.sidReq, "acr": p.acr, "acrcfg": p.acrCfg, "shape": p.shape, "jwks": p.jwks, "now_off_ms": int64(p.nowOff / time.Millisecond)})
+					"sid": p.sid, "sidreq": p.sidReq, "acr": p.acr, "acrcfg": p.acrCfg, "shape": p.shape, "jwks": p.jwks, "res": p.res, "now_off_ms": int64(p.nowOff / time.Millisecond)})
 				wobs.Write(ob)
 				wobs.WriteByte('\n')
 				count++
@@ -639,7 +705,7 @@ func runIDToken(args []string) error {
 				ob, _ := json.Marshal(map[string]any{"point": fmt.Sprintf("overlapping callbacks: other attempt runs at accessor call %d (%s) %+v", k, where, p), "accepted": x.acc, "error": "", "status": 0,
 					"session_cookie": x.acc, "session_usable": x.acc, "store_keys_before": 0, "store_keys_after": bi(x.acc), "overlap": true,
 					"sig": p.sig, "keys": p.keys, "iss": p.iss, "aud": p.aud, "exp": p.exp, "iat": p.iat, "nbf": p.nbf, "nonce": x.nm, "sub": p.sub,
-					"sid": p.sid, "sidreq": true, "acr": p.acr, "acrcfg": "", "shape": "ok", "jwks": "fresh", "now_off_ms": int64(1000 + k)})
+					"sid": p.sid, "sidreq": true, "acr": p.acr, "acrcfg": "", "shape": "ok", "jwks": "fresh", "res": "", "now_off_ms": int64(1000 + k)})
 				wobs.Write(ob)
 				wobs.WriteByte('\n')
 				count++
